@@ -110,6 +110,7 @@ type c06Sample struct {
 	Input   string   `json:"input_kind"`
 	Len     int      `json:"message_len"`
 	Trail   int      `json:"trailing_bytes"`
+	OrSet   bool     `json:"ored_with_a_deciding_set,omitempty"`
 	Hex     string   `json:"first_bytes"`
 	Deliveries []string `json:"deliveries"`
 	Outcomes []string `json:"outcomes"`
@@ -190,8 +191,20 @@ func runC06(t *testing.T, e *worlds.Env, tier string) (bool, any) {
 			}
 		})
 		never := &worlds.SpecMatcher{E: e, ID: "never", Never: true}
+		sets := []layer4.MatcherSet{{pm}}
+		if tp.Prob(1, 4, "or-set") {
+			// the route ORs a second matcher set that can already say no: while the matcher under
+			// test still asks for more data the route as a whole must keep asking too
+			sets = append(sets, layer4.MatcherSet{&worlds.SpecMatcher{E: e, ID: "orno", Fn: func(v []byte) int {
+				if len(v) < 1 {
+					return 2
+				}
+				return 0
+			}}})
+			sample.OrSet = true
+		}
 		routes := layer4.RouteList{
-			layer4.VerifNewRoute([]layer4.MatcherSet{{pm}}, []layer4.NextHandler{hit, drain}),
+			layer4.VerifNewRoute(sets, []layer4.NextHandler{hit, drain}),
 			layer4.VerifNewRoute([]layer4.MatcherSet{{never}}, []layer4.NextHandler{drain}),
 		}
 		timeout := 2 * time.Second
